@@ -8,7 +8,7 @@ Confirms an independently written breaking change before it is kept under /verif
 Prints a JSON verdict. Uses a scratch worktree under /tmp and removes it."""
 import json, os, re, shutil, subprocess, sys, tempfile
 
-ENV = dict(os.environ, GOFLAGS="-mod=mod", GOPROXY="off", GOSUMDB="off", GOTOOLCHAIN="local")
+ENV = dict(os.environ, GOFLAGS="-mod=mod -trimpath", GOPROXY="off", GOSUMDB="off", GOTOOLCHAIN="local")  # -trimpath: scratch worktrees share the build cache
 
 
 def sh(cmd, cwd, timeout=2400):
